@@ -7,6 +7,7 @@ import (
 	"hash"
 	"reflect"
 	"sort"
+	"strings"
 )
 
 // Digest returns a structural digest of the object graph reachable from v
@@ -43,6 +44,23 @@ func (d *digester) walk(v reflect.Value, depth int) {
 		if v.IsNil() {
 			d.put("nil;")
 			return
+		}
+		// Constants and unnamed types are values: whether two uses share one Go object (the
+		// package-level singletons constant.True, types.I32 ...) or hold equal copies is not part of
+		// the module's structure. They are expanded at every use; recursion always passes through a
+		// global, a local or a named type, which keep their identity.
+		if pp := v.Type().Elem().PkgPath(); strings.HasSuffix(pp, "/ir/constant") && depth < 200 {
+			d.put("&%s{", v.Type().Elem().String())
+			d.walk(v.Elem(), depth+1)
+			d.put("}")
+			return
+		} else if strings.HasSuffix(pp, "/ir/types") && depth < 200 {
+			if t, ok := v.Interface().(interface{ Name() string }); ok && t.Name() == "" {
+				d.put("&%s{", v.Type().Elem().String())
+				d.walk(v.Elem(), depth+1)
+				d.put("}")
+				return
+			}
 		}
 		k := visitKey{v.Pointer(), v.Type()}
 		if n, ok := d.seen[k]; ok {
